@@ -130,7 +130,14 @@ def judge(ctx: core.Ctx, case: dict[str, Any]) -> None:
     aborted_any = False
     for lim in (case.get("only") or LIMITS):
         u = sweeps[lim]
-        vals = sorted({0, 1, 2, max(u - 1, 0), u, u + 1, 2 * u + 1, u + 7})
+        vals = {0, 1, 2, max(u - 2, 0), max(u - 1, 0), u, u + 1, 2 * u + 1, u + 7}
+        if lim in ("context_depth_limit", "block_nesting_limit") and u <= 40:
+            # small range, and every value makes a *different* construct the first to hit the limit: sweep them all
+            vals.update(range(0, u + 2))
+        elif u > 4:
+            r = core.random.Random(core.stable_hash([case["source"], lim]))
+            vals.update(r.randint(2, u - 1) for _ in range(3))
+        vals = sorted(vals)
         first_ok = None
         for v in vals:
             o = run(case, {lim: v}, data)
@@ -158,8 +165,15 @@ def judge(ctx: core.Ctx, case: dict[str, Any]) -> None:
                     return
                 continue
             if not o.ok and not o.is_liquid_error:
-                ctx.count("non_liquid_error_forwarded_to_C02")
-                continue
+                # the unlimited run of this very case ends in success or a Liquid error, so this foreign exception exists only
+                # because of the limit: the limit neither left the result alone nor failed with a ResourceLimitError
+                ctx.evaluations += 1
+                ctx.violation(
+                    f"outcome-altered:{lim}:escapes-{o.err_class}@{core.liquid_frame(core.root_cause(o.exc))}",
+                    f"{lim}={v}: {o.err_class} ({str(o.exc)[:80]}) escapes where the unlimited run gives {base.brief()!r:.120} (measured use {u})",
+                    {"tb": core.short_tb(o.exc)},
+                )
+                return
             ctx.evaluations += 1
             ctx.violation(
                 f"outcome-altered:{lim}",
